@@ -321,7 +321,7 @@ def run_scenario(sc: dict) -> list[dict]:
                         return False
                     fut.set_result(None)
                 else:
-                    raise ValueError(op)
+                    return False  # unknown here (e.g. "timeout" inside a burst: time only passes while the loop is idle)
                 return True
 
             diverged = False
